@@ -9,11 +9,11 @@ VALIDATE_MODELS = ['ws', 'utf8', 'graphemes']
 VALIDATION_CASES = {'quick': 40, 'thorough': 100}
 TIME_BUDGET = {'quick': 900, 'thorough': 3300}
 BOUNDS = {
-    'quick': 'clean texts with <= 3 non-whitespace characters (widths 1-4, symbolic) and every placement of single spaces; '
+    'quick': 'clean texts with <= 3 non-whitespace characters (every UTF-8 width vector for <= 2 characters; for 3 characters all vectors over the widths 1 and 3 plus four with 2- and 4-byte characters), code points symbolic, and every placement of single spaces; '
              'probabilities: (insert = 0, delete symbolic in (0,1]), (insert symbolic, delete = 0), both symbolic, and values '
-             'outside [0,1] clamped; seed symbolic; every random stream; grapheme mode over Sigma_g with <= 3 code points; '
+             'outside [0,1] clamped; seed symbolic; every random stream; grapheme mode over Sigma_g with <= 3 code points (3 code points: 6 of the 27 width vectors); '
              'called through preprocessing(WhitespaceCorruption(..)) on input and on target part',
-    'thorough': 'same with <= 4 non-whitespace characters',
+    'thorough': 'same with <= 4 non-whitespace characters (every width vector for <= 3 characters, the reduced width set for 4; grapheme mode: all 27 width vectors for 3 code points)',
 }
 OUTSIDE = ['longer texts', 'grapheme mode outside Sigma_g', 'the whitespace-correction task closure (tokenizer construction); '
            'its label vector is operations(input, target), which is what is checked here']
@@ -26,9 +26,17 @@ def shapes(tier):
     k = 3 if tier == 'quick' else 4
     out = []
     import itertools
+    def reduced(ws):
+        # longest texts of a tier: every vector over the widths {1, 3} plus a few with 2- and 4-byte characters (the
+        # corruption logic depends on the widths only through byte offsets)
+        return all(w in (1, 3) for w in ws) or list(ws) in ([2, 2, 2], [4, 1, 2], [1, 4, 1], [2, 3, 4], [2, 2, 2, 2], [4, 1, 2, 3], [1, 4, 1, 4])
     for g in (False, True):
         for ws in width_shapes(k if not g else 3, widths=(1, 2, 3, 4) if not g else (1, 2, 3)):
             n = len(ws)
+            if not g and n == k and not reduced(ws):
+                continue
+            if g and n == 3 and tier == 'quick' and list(ws) not in ([1, 1, 1], [1, 2, 1], [3, 2, 3], [1, 2, 2], [3, 3, 3], [2, 1, 2]):
+                continue     # grapheme mode with 3 code points dominates the cost (cluster classes x draws): 6 of the 27 width vectors
             for gp in itertools.product((0, 1), repeat=max(0, n - 1)):
                 for pm in ('ins0', 'del0', 'both'):
                     if g and pm != 'both' and n > 2:
@@ -208,8 +216,13 @@ def concrete_check(native, inputs, shape):
             return []
     failed = set()
     og = {i for i, x in enumerate(shape['gaps']) if x}
-    for seed in [inputs.get('seed', 0)] + list(range(64)):
-        k, v = _call(native, shape, inputs, seed)
+    # the solver is free to pick probabilities (e.g. 1e-289) that no real seed can undercut; only the outcomes of the
+    # comparisons draw < p matter, so the same decision pattern is searched for at probability 0.5 as well
+    mid_in = dict(inputs, iw_p=0.5, dw_p=0.5)
+    runs = [(inputs, s) for s in [inputs.get('seed', 0)] + list(range(48))] + [(mid_in, s) for s in range(160)]
+    for cur_in, seed in runs:
+        iw, dw = _p(shape, cur_in)
+        k, v = _call(native, shape, cur_in, seed)
         if k != 'ok':
             return ['no panic']
         if v['other'] != [ord(c) for c in 'o t h e r']:
@@ -232,13 +245,13 @@ def concrete_check(native, inputs, shape):
             failed.add('with delete probability 0 no whitespace disappears')
         if iw <= 0 and not cg <= og:
             failed.add('with insert probability 0 no whitespace appears')
-        k2, again = _call(native, shape, inputs, seed)
+        k2, again = _call(native, shape, cur_in, seed)
         if again != v:
             failed.add('no randomness from an unseeded generator')
         # dependence on anything but (text, seed): compare across file indices, also at probabilities where the
         # random draws matter (the counterexample's own probabilities may make every draw irrelevant)
         mid = dict(inputs, iw_p=0.5, dw_p=0.5)
-        for probe in (inputs, mid):
+        for probe in ((inputs, mid) if cur_in is inputs and seed < 8 else ()):
             k1, base = _call(native, shape, probe, seed, file_idx=0)
             for fi in (1, 7):
                 k2, other = _call(native, shape, probe, seed, file_idx=fi)
